@@ -40,7 +40,7 @@ var c19Kinds = []string{"calculator", "template", "gentok", "exprtok", "csvtok",
 func (propC19) Gen(r *Rand) *Plan {
 	p := &Plan{Config: map[string]string{}}
 	p.Config["ops"] = r.Pick([]string{"unsafe", "unsafe", "safe"})
-	ntasks := r.Range(2, 4)
+	ntasks := r.Range(2, 3+Scale)
 	p.Config["order"] = r.Pick([]string{"ref-first", "conc-first"})
 	p.Config["maporder"] = "0"
 	if r.Bool(0.75) {
